@@ -19,7 +19,7 @@
 From Coq Require Import String.
 From Coq Require Import List Ascii ZArith Bool Lia Permutation.
 From CGV Require Import Base.PyBase Base.PyVal Base.NxGraph Resolve.Bonding Resolve.GraphOps Resolve.CopyProofs Resolve.Pipeline
-     Resolve.PipelineFull Hydro.HydroDefs Stereo.EzImpl Stereo.EzDefs Stereo.EzProofs Stereo.EzBuilt Stereo.EzReturned Stereo.EzSortMono.
+     Resolve.PipelineFull Hydro.HydroDefs Stereo.EzImpl Stereo.EzDefs Stereo.EzProofs Stereo.EzBuilt Stereo.EzReturned Stereo.EzSortMono Stereo.EzRebuildOrder.
 From CGV Require Import Compose.CutModel Compose.CutPos Compose.CutSkeleton Compose.CutHydrogens Compose.Completion Compose.CutIso
      Compose.OrderIndep Compose.ReturnedIso Compose.RelabelEdges Compose.PartPerm Compose.ComposeFlat Dialect.ReturnedAnnot.
 From CGV Require Gen.HydroGen Hydro.Hydrogens Hydro.Squash Hydro.SquashDefs Hydro.RebuildProofs Resolve.SortGraphProofs Resolve.MapProofs.
@@ -93,7 +93,8 @@ Section EzCut.
        edge_get (fo_m5 fo) (map_get m a) (map_get m b) (S "order") = edge_get (fo_m4 fo) a b (S "order")) /\
     (forall k key, In k (node_keys (fo_m4 fo)) -> key <> S "ez_isomer_atoms" -> node_get (fo_m5 fo) (map_get m k) key = node_get (fo_m4 fo) k key) /\
     (forall x, In x (flat C) -> node_get (fo_m5 fo) (map_get m (phi C x)) ezk = tok x) /\
-    (forall x, In x (flat C) -> node_get (fo_m4 fo) (phi C x) (S "fragid") = Some (VList [VInt (Z.of_nat (owner C x))])).
+    (forall x, In x (flat C) -> node_get (fo_m4 fo) (phi C x) (S "fragid") = Some (VList [VInt (Z.of_nat (owner C x))])) /\
+    (exists hs, node_keys (fo_m4 fo) = map Z.of_nat (seq 0 (length (flat C))) ++ hs).
   Proof.
     destruct (all_atom_step_inv _ _ _ _ _ Step) as (a1 & afg1 & afg2 & _ & Ea1 & Ea2 & Sa & Ra & So & _).
     rewrite HM in Ea1, Ea2.
@@ -103,7 +104,7 @@ Section EzCut.
     destruct (SortGraphProofs.sort_graph _ _ (cp_wf _ _ _ K) (cp_fragid _ _ _ K) So) as (m & Em & Inj & _ & Kh & E & A).
     pose proof (sort_edge_get _ _ (S "order") (cp_wf _ _ _ K) (cp_adj _ _ _ K) (cp_edn _ _ _ K) (cp_fragid _ _ _ K) So (cp_order_sym _ _ _ K) m Em) as O.
     exists m. split; [exact K|]. split; [exact So|]. split; [exact Em|]. split; [exact Inj|]. split; [exact Kh|].
-    split; [intros a b Ha Hb; split; [now apply E|now apply O]|]. split; [exact A|]. split.
+    split; [intros a b Ha Hb; split; [now apply E|now apply O]|]. split; [exact A|]. split; [|split].
     - (* the token: Dialect's copy theorem for a carried key *)
       destruct (annotation_reaches_returned_graph C W fd HT Hwfd B HB Hat Hnum) as (b1 & bfg1 & b2 & bfg2 & Eb1 & Eb2 & _ & Hall).
       rewrite Ea1 in Eb1. inversion Eb1; subst b1 bfg1. rewrite Ea2 in Eb2. inversion Eb2; subst b2 bfg2.
@@ -117,6 +118,10 @@ Section EzCut.
     - intros x Fx. destruct (cp_heavy _ _ _ K x Fx) as (n & n' & val & G & G' & _ & _ & _ & _ & At & _).
       unfold node_get. rewrite G', (At (S "fragid")) by (intros Q; vm_compute in Q; discriminate).
       rewrite E3 in G. destruct (sk_attrs _ _ _ Ska x Fx) as (Fid & _). unfold node_get in Fid. rewrite G in Fid. exact Fid.
+    - (* the hydrogen step appends: the heavy atoms stay in position order *)
+      assert (ND2 : NoDup (node_keys (fo_m2 fo))).
+      { rewrite (sk_keys _ _ _ Ska). apply FinFun.Injective_map_NoDup; [intros a b Q; lia|apply seq_NoDup]. }
+      destruct (rebuild_keys_prefix _ _ ND2 Ra) as [hs Eh]. exists hs. rewrite Eh, (sk_keys _ _ _ Ska). reflexivity.
   Qed.
 
   (** the class of a classified pair in terms of the two key-order flags *)
@@ -142,9 +147,10 @@ Section EzCut.
       lx <> ax /\ lx <> ay /\ ly <> ay /\ ly <> ax /\
       (v = ez_tuple (map_get m (phi C lx)) (map_get m (phi C ax)) (map_get m (phi C ay)) (map_get m (phi C ly)) c \/
        v = ez_tuple (map_get m (phi C ly)) (map_get m (phi C ay)) (map_get m (phi C ax)) (map_get m (phi C lx)) c) /\
+      phi C ax < phi C ay /\
       c = class_val (if wb ly ay then negb (geom lx ax ay ly tx ty) else geom lx ax ay ly tx ty).
   Proof.
-    destruct stages as (m & K & So & Em & Inj & Kh & E & A & Tk & Fid).
+    destruct stages as (m & K & So & Em & Inj & Kh & E & A & Tk & Fid & (hs & Ord)).
     pose proof (SquashDefs.wf_nodup _ (cp_wf _ _ _ K)) as ND4.
     assert (Hheavy : forall x, In x (flat C) -> In (phi C x) (node_keys (fo_m4 fo))).
     { intros x Fx. apply MapProofs.gfind_has. apply (cp_keys _ _ _ K). left. eauto. }
@@ -155,9 +161,9 @@ Section EzCut.
     destruct (pair_path _ _ _ _ _ W5 Hps Hin) as [P1 _].
     apply path_ok_inv in P1 as (H9 & H8 & H7 & H6 & H5 & H4 & H3 & H2 & D1 & D2 & D3 & D4).
     (* the tokens *)
-    unfold all_pairs in Hps. destruct (all_pairs_of_in _ _ _ _ _ Hps Hin) as ([[a1 a2] d] & ps' & _ & Hep & Hin').
+    unfold all_pairs in Hps. destruct (all_pairs_of_in _ _ _ _ _ Hps Hin) as ([[a1 a2] d] & ps' & Hed & Hep & Hin').
     destruct (edge_pairs_in _ _ _ _ _ _ _ _ Hep Hin') as (_ & Ix & Iy).
-    destruct (on_anchor_in _ _ _ _ _ Ix) as (_ & _ & _ & _ & Tx). destruct (on_anchor_in _ _ _ _ _ Iy) as (_ & _ & _ & _ & Ty).
+    destruct (on_anchor_in _ _ _ _ _ Ix) as (Ax1 & _ & _ & _ & Tx). destruct (on_anchor_in _ _ _ _ _ Iy) as (Ay2 & _ & _ & _ & Ty).
     apply (ez_get_node_get _ _ _ ND5) in Tx. apply (ez_get_node_get _ _ _ ND5) in Ty.
     (* preimages of the four keys under the renumbering *)
     assert (Pre : forall q, has_node (fo_m5 fo) q = true -> exists a, In a (node_keys (fo_m4 fo)) /\ q = map_get m a).
@@ -193,6 +199,20 @@ Section EzCut.
     rewrite Ela, Eaa, Eab, Elb in *.
     assert (Ny : s_lig y <> s_anc y) by (rewrite Elb, Eab; assumption).
     destruct (pair_class x y c Hres Ny) as (T1 & T2 & Nx & Hc).
+    (* the edge is enumerated from the anchor that comes first in the node order = the earlier position *)
+    assert (First : phi C ax < phi C ay).
+    { destruct (Z.lt_trichotomy (phi C ax) (phi C ay)) as [L|[Q|L]]; [exact L| |].
+      - exfalso. apply (phi_inj C ax ay Fax Fay) in Q. subst ay.
+        pose proof (SquashDefs.wf_loopfree _ (cp_wf _ _ _ K) (phi C ax)) as LF. rewrite Bxy in LF. congruence.
+      - exfalso. unfold edges_data in Hed. apply (proj1 (SortGraphProofs.edges_from_iff _ _ _ _ _)) in Hed as (pre & n & post & Eg & Kn & _ & _ & Npre).
+        rewrite <- Ax1 in Kn. rewrite <- Ay2 in Npre. apply Npre.
+        assert (Kg : node_keys (fo_m5 fo) = node_keys pre ++ map_get m (phi C ax) :: node_keys post).
+        { rewrite Eg. unfold node_keys. rewrite map_app. cbn [map]. now rewrite Kn. }
+        apply (before_in_front (map_get m (phi C ay)) (map_get m (phi C ax)) (node_keys pre) (node_keys post)); [rewrite <- Kg; exact ND5|].
+        rewrite <- Kg, Kh, Ord. apply (before_map (map_get m)). apply before_app_l.
+        pose proof (phi_range C ax Fax) as R1. pose proof (phi_range C ay Fay) as R2.
+        replace (phi C ay) with (Z.of_nat (Z.to_nat (phi C ay))) by lia. replace (phi C ax) with (Z.of_nat (Z.to_nat (phi C ax))) by lia.
+        apply seq_before; lia. }
     exists lx, ax, ay, ly, (s_tok x), (s_tok y), c.
     repeat (split; [first [assumption | intros ->; congruence]|]).
     (* the renumbering keeps the position order of any two atoms of the cut *)
@@ -233,7 +253,7 @@ Theorem written_after_class C (W : wf_cut C) fd (HT : templates_ok C fd) (Hwfd :
 Proof.
   destruct (returned_class_geom C W fd HT Hwfd B HB Hat Hnum tok Htok prev fo HM Step) as (m & Em & Inj & Hh & Hall).
   exists m. split; [exact Em|]. intros lx ax ay ly c k Flx Fax Fay Fly Hnew Ox Oy Wx Wy.
-  destruct (Hall k _ Hnew) as (lx' & ax' & ay' & ly' & tx & ty & c' & F1 & F2 & F3 & F4 & T1 & T2 & K1 & K2 & _ & _ & _ & _ & _ & _ & _ & _ & Hv & Hc).
+  destruct (Hall k _ Hnew) as (lx' & ax' & ay' & ly' & tx & ty & c' & F1 & F2 & F3 & F4 & T1 & T2 & K1 & K2 & _ & _ & _ & _ & _ & _ & _ & _ & Hv & _ & Hc).
   assert (Eq : forall u w, In u (flat C) -> In w (flat C) -> map_get m (phi C u) = map_get m (phi C w) -> u = w).
   { intros u w Fu Fw E. apply (phi_inj C u w Fu Fw). apply Inj; auto. }
   destruct Hv as [Hv|Hv]; apply ez_tuple_inj in Hv as (E1 & E2 & E3 & E4 & <-).
@@ -295,4 +315,78 @@ Proof.
   pose proof (proj2 (pp_flat_in C1 C2 PP ay) Fay) as Gay. pose proof (proj2 (pp_flat_in C1 C2 PP ly) Fly) as Gly.
   destruct (H2 lx ax ay ly c2 k2 Glx Gax Gay Gly N2 Ox2 Oy2 Wx2 Wy2) as (tx' & ty' & T1' & T2' & _ & _ & ->).
   congruence.
+Qed.
+
+(** ---------------------------------------------------------------- the stored class as an explicit function of the cut *)
+Lemma up_tok_of u b : up b (tok_of u b) = u.
+Proof. unfold up, tok_of. destruct u, b; reflexivity. Qed.
+Lemma geom_cis_sides u1 b1 u2 b2 : geom_cis b1 (tok_of u1 b1) b2 (tok_of u2 b2) = Bool.eqb u1 u2.
+Proof. unfold geom_cis. now rewrite !up_tok_of. Qed.
+
+(** the ligand of the LATER anchor (position order) comes after its anchor *)
+Definition late_after (C : cut) (lx ax ay ly : Z) : bool :=
+  if phi C ax <? phi C ay then negb (wb C ly ay) else negb (wb C lx ax).
+
+(** for ANY four atoms of the cut: if a tuple about them is stored (either of the two mirrored forms), its class is the
+    table value on their positions; with tokens that say "side ux / uy" for the position order (inside a part: the tokens
+    OpenSMILES prescribes for those sides) the stored class is the TRUE relation (cis iff same side) exactly when the
+    ligand of the later anchor comes after it, and the opposite otherwise *)
+Theorem stored_class_sides C (W : wf_cut C) fd (HT : templates_ok C fd) (Hwfd : wf_dict fd) B (HB : is_base C B)
+  (Hat : heavy_payload C) (Hnum : numeric_orders C) tok
+  (Htok : forall name xs T i x n, In (name, xs) (c_parts C) -> fd_get name fd = Some T ->
+     nth_error xs i = Some x -> gfind (Z.of_nat i) T = Some n -> aget ezk (na n) = tok x)
+  prev fo (HM : next_meta prev = B) (Step : resolve_step_full true true fd prev (Some (fo_m3 fo)) = Ok fo) :
+  exists m, sort_mapping (fo_m4 fo) = Ok m /\
+    forall lx ax ay ly ux uy c k, In lx (flat C) -> In ax (flat C) -> In ay (flat C) -> In ly (flat C) ->
+      is_new (fo_m5 fo) (fo_mol fo) k
+        (ez_tuple (map_get m (phi C lx)) (map_get m (phi C ax)) (map_get m (phi C ay)) (map_get m (phi C ly)) c) ->
+      tok lx = Some (tok_of ux (wb C lx ax)) -> tok ly = Some (tok_of uy (wb C ly ay)) ->
+      c = class_val (if late_after C lx ax ay ly then Bool.eqb ux uy else negb (Bool.eqb ux uy)).
+Proof.
+  destruct (returned_class_geom C W fd HT Hwfd B HB Hat Hnum tok Htok prev fo HM Step) as (m & Em & Inj & Hh & Hall).
+  exists m. split; [exact Em|]. intros lx ax ay ly ux uy c k Flx Fax Fay Fly Hnew Tx Ty.
+  destruct (Hall k _ Hnew) as (lx' & ax' & ay' & ly' & tx & ty & c' & F1 & F2 & F3 & F4 & T1 & T2 & _ & _ & _ & _ & _ & _ & _ & _ & _ & _ & Hv & Hlt & Hc).
+  assert (Eq : forall u w, In u (flat C) -> In w (flat C) -> map_get m (phi C u) = map_get m (phi C w) -> u = w).
+  { intros u w Fu Fw E. apply (phi_inj C u w Fu Fw). apply Inj; auto. }
+  unfold late_after.
+  destruct Hv as [Hv|Hv]; apply ez_tuple_inj in Hv as (E1 & E2 & E3 & E4 & <-).
+  - apply Eq in E1, E2, E3, E4; auto. subst lx' ax' ay' ly'. rewrite Tx in T1. rewrite Ty in T2. inversion T1; inversion T2; subst tx ty.
+    rewrite (proj2 (Z.ltb_lt _ _) Hlt), Hc. unfold geom. rewrite geom_cis_sides. destruct (wb C ly ay); reflexivity.
+  - apply Eq in E1, E2, E3, E4; auto. subst lx' ax' ay' ly'. rewrite Ty in T1. rewrite Tx in T2. inversion T1; inversion T2; subst tx ty.
+    assert (G : (phi C ax <? phi C ay) = false) by (apply Z.ltb_ge; lia).
+    rewrite G, Hc. unfold geom. rewrite geom_cis_sides. destruct ux, uy, (wb C lx ax); reflexivity.
+Qed.
+
+(** ez_cut_invariant: ANY two cuts of the molecule (one fragment, cut at the double bond, cut elsewhere, any part order) whose
+    tokens say the same sides store the same class for the same four atoms - the true relation - as long as, in each of them,
+    the ligand of the later anchor comes after its anchor (outside the open classes) *)
+Theorem cut_invariant C1 C2 fd1 fd2 B1 B2 tok1 tok2 prev1 prev2 fo1 fo2 :
+  wf_cut C1 -> templates_ok C1 fd1 -> wf_dict fd1 -> is_base C1 B1 -> heavy_payload C1 -> numeric_orders C1 ->
+  wf_cut C2 -> templates_ok C2 fd2 -> wf_dict fd2 -> is_base C2 B2 -> heavy_payload C2 -> numeric_orders C2 ->
+  (forall name xs T i x n, In (name, xs) (c_parts C1) -> fd_get name fd1 = Some T ->
+     nth_error xs i = Some x -> gfind (Z.of_nat i) T = Some n -> aget ezk (na n) = tok1 x) ->
+  (forall name xs T i x n, In (name, xs) (c_parts C2) -> fd_get name fd2 = Some T ->
+     nth_error xs i = Some x -> gfind (Z.of_nat i) T = Some n -> aget ezk (na n) = tok2 x) ->
+  next_meta prev1 = B1 -> next_meta prev2 = B2 ->
+  resolve_step_full true true fd1 prev1 (Some (fo_m3 fo1)) = Ok fo1 -> resolve_step_full true true fd2 prev2 (Some (fo_m3 fo2)) = Ok fo2 ->
+  exists m1 m2, sort_mapping (fo_m4 fo1) = Ok m1 /\ sort_mapping (fo_m4 fo2) = Ok m2 /\
+    forall lx ax ay ly ux uy c1 c2 k1 k2,
+      In lx (flat C1) -> In ax (flat C1) -> In ay (flat C1) -> In ly (flat C1) ->
+      In lx (flat C2) -> In ax (flat C2) -> In ay (flat C2) -> In ly (flat C2) ->
+      tok1 lx = Some (tok_of ux (wb C1 lx ax)) -> tok1 ly = Some (tok_of uy (wb C1 ly ay)) ->
+      tok2 lx = Some (tok_of ux (wb C2 lx ax)) -> tok2 ly = Some (tok_of uy (wb C2 ly ay)) ->
+      late_after C1 lx ax ay ly = true -> late_after C2 lx ax ay ly = true ->
+      is_new (fo_m5 fo1) (fo_mol fo1) k1
+        (ez_tuple (map_get m1 (phi C1 lx)) (map_get m1 (phi C1 ax)) (map_get m1 (phi C1 ay)) (map_get m1 (phi C1 ly)) c1) ->
+      is_new (fo_m5 fo2) (fo_mol fo2) k2
+        (ez_tuple (map_get m2 (phi C2 lx)) (map_get m2 (phi C2 ax)) (map_get m2 (phi C2 ay)) (map_get m2 (phi C2 ly)) c2) ->
+      c1 = class_val (Bool.eqb ux uy) /\ c2 = class_val (Bool.eqb ux uy).
+Proof.
+  intros W1 HT1 D1 HB1 Hat1 Hn1 W2 HT2 D2 HB2 Hat2 Hn2 Htok1 Htok2 HM1 HM2 S1 S2.
+  destruct (stored_class_sides C1 W1 fd1 HT1 D1 B1 HB1 Hat1 Hn1 tok1 Htok1 prev1 fo1 HM1 S1) as (m1 & Em1 & H1).
+  destruct (stored_class_sides C2 W2 fd2 HT2 D2 B2 HB2 Hat2 Hn2 tok2 Htok2 prev2 fo2 HM2 S2) as (m2 & Em2 & H2).
+  exists m1, m2. split; [exact Em1|]. split; [exact Em2|].
+  intros lx ax ay ly ux uy c1 c2 k1 k2 F1 F2 F3 F4 G1 G2 G3 G4 T1 T2 T3 T4 L1 L2 N1 N2.
+  pose proof (H1 lx ax ay ly ux uy c1 k1 F1 F2 F3 F4 N1 T1 T2) as R1. rewrite L1 in R1.
+  pose proof (H2 lx ax ay ly ux uy c2 k2 G1 G2 G3 G4 N2 T3 T4) as R2. rewrite L2 in R2. auto.
 Qed.
